@@ -145,6 +145,18 @@ func main() {
 	}
 	// runSource: precondition (clean, also when re-encoded), then every
 	// position x every selected shape
+	var keysFilter func(keys []string) bool // when set: only the positions it accepts are explored
+	hasPrefix := func(keys, prefix []string) bool {
+		if len(keys) < len(prefix) {
+			return false
+		}
+		for i := range prefix {
+			if keys[i] != prefix[i] {
+				return false
+			}
+		}
+		return true
+	}
 	runSource := func(s source, isEvery bool, shapeSel func(pi, shi int) bool, emitSel func(pi, shi int) bool, keySuffix string) {
 		var doc yaml.Node
 		if err := yaml.Unmarshal(s.Src, &doc); err != nil {
@@ -173,6 +185,9 @@ func main() {
 		nclean++
 		poss := scalarPositions(&doc)
 		for pi, pos := range poss {
+			if keysFilter != nil && !keysFilter(pos.Keys) {
+				continue
+			}
 			if npos >= budget && !isEvery {
 				break
 			}
@@ -270,8 +285,10 @@ func main() {
 	nsib := 0
 	if *one == "" {
 		type del struct {
-			src  source
-			what string
+			src    source
+			what   string
+			parent []string // key path of the mapping that lost the key / was re-ordered
+			only   [][]string // when set: only the positions below these key paths
 		}
 		var dels []del
 		for _, k := range everyKey {
@@ -297,10 +314,42 @@ func main() {
 						ks := append(append([]string{}, keys...), saved[i].Value)
 						n.Content = nc
 						if b, err := marshal(&doc); err == nil {
-							dels = append(dels, del{source{k.Name + " without " + strings.Join(ks, "."), b}, canonPath(ks)})
+							dels = append(dels, del{source{k.Name + " without " + strings.Join(ks, "."), b}, canonPath(ks), append([]string{}, keys...), nil})
 						}
 						n.Content = saved
 						walk(saved[i+1], ks)
+					}
+					// the same keys in another order (reversed; rotated by one): which key comes first
+					// must not decide whether a sibling is checked
+					if len(n.Content) >= 4 {
+						saved := n.Content
+						for v := 0; v < 2; v++ {
+							var nc []*yaml.Node
+							if v == 0 {
+								for i := len(saved) - 2; i >= 0; i -= 2 {
+									nc = append(nc, saved[i], saved[i+1])
+								}
+							} else {
+								nc = append(append([]*yaml.Node{}, saved[2:]...), saved[0], saved[1])
+							}
+							n.Content = nc
+							if b, err := marshal(&doc); err == nil {
+								dels = append(dels, del{source{k.Name + " with " + strings.Join(keys, ".") + " re-ordered", b}, "reordered:" + canonPath(keys), append([]string{}, keys...), nil})
+							}
+						}
+						n.Content = saved
+						// two neighbouring keys swapped (a key that used to come after another now comes before it)
+						for i := 0; i+3 < len(saved); i += 2 {
+							nc := append([]*yaml.Node{}, saved...)
+							nc[i], nc[i+1], nc[i+2], nc[i+3] = saved[i+2], saved[i+3], saved[i], saved[i+1]
+							n.Content = nc
+							if b, err := marshal(&doc); err == nil {
+								ka := append(append([]string{}, keys...), saved[i].Value)
+								kb := append(append([]string{}, keys...), saved[i+2].Value)
+								dels = append(dels, del{source{k.Name + " with " + strings.Join(kb, ".") + " moved before " + saved[i].Value, b}, "swapped:" + canonPath(kb), append([]string{}, keys...), [][]string{ka, kb}})
+							}
+						}
+						n.Content = saved
 					}
 				}
 			}
@@ -310,21 +359,34 @@ func main() {
 		for i := range idx {
 			idx[i] = i
 		}
-		if *tier != "thorough" {
-			p := rng.Perm(len(dels))
-			if len(p) > 30 {
-				p = p[:30]
-			}
-			idx = p
-		}
+		// quick: EVERY derived workflow, but only the positions inside the mapping that changed (the
+		// siblings), one shape each; thorough: every position x every shape
 		for _, i := range idx {
 			d := dels[i]
 			sel := all
 			if *tier != "thorough" {
 				sel = func(pi, shi int) bool { return shi == (pi+i)%len(shapes) }
+				parent := d.parent
+				depth := 3
+				if len(parent) < 2 {
+					depth = 2 // (the root mapping and `jobs`: the near siblings only)
+				}
+				only := d.only
+				keysFilter = func(keys []string) bool {
+					if len(only) > 0 {
+						for _, o := range only {
+							if hasPrefix(keys, o) && len(keys) <= len(o)+1 {
+								return true
+							}
+						}
+						return false
+					}
+					return hasPrefix(keys, parent) && len(keys) <= len(parent)+depth
+				}
 			}
 			before := nclean
 			runSource(d.src, true, sel, none, " without:"+d.what)
+			keysFilter = nil
 			if nclean > before {
 				nsib++
 			}
